@@ -3,9 +3,11 @@
    vector wrapper V2x64U with all its operator impls, and the helper functions named after x86 intrinsics — translated from the
    current source text on every run (gen/SrcWasmFull.v, with HashPacket from gen/SrcPacket.v) and interpreted by
    Facts/RustLite.v — is the hand-written model Wasm.v, function by function, for every state, every argument, every data
-   slice, every build profile and every call depth the interpreter is given.  Supplied to the interpreter from outside:
-   the meaning of the wasm32 SIMD instructions (RustLite.vprim / sprim: the intrinsic models of Wasm.v) and of
-   internal::unordered_load3 (Packet.unordered_load3).  Not in the fragment: checkpoint / from_checkpoint (they go through
+   slice, every build profile and every call depth the interpreter is given.  internal::unordered_load3, which wasm.rs calls,
+   is translated from src/internal.rs and run by the interpreter like the rest; the ONLY thing supplied from outside is the
+   meaning of the wasm32 SIMD instructions (RustLite.vprim / sprim: the intrinsic models of Wasm.v).  Where the path goes
+   through unordered_load3 the slices are slices of bytes (each element below 256: its u64 sums then cannot overflow, whatever
+   the build profile checks).  Not in the fragment: checkpoint / from_checkpoint (they go through
    PortableHash; tied by SourceKernelWasm.v and the correspondence runs), Default, and the trait impls that forward.
    (Part of C04: the model C04 is proved about is, for these functions, what the source says today.) *)
 From Coq Require Import NArith List String Bool.
@@ -78,7 +80,11 @@ Theorem SRCW_load_multiple_of_four : forall p fuel g bytes, (List.length bytes <
   = lift (w_load_multiple_of_four bytes) (fun r => (g, [Some (VA bytes)], Some (VX r))).
 Proof. exact w_load_multiple_of_four_src. Qed.
 
-Theorem SRCW_remainder : forall p fuel g bytes,
+Theorem SRCW_unordered_load3 : forall p fuel g from, (List.length from <= 3)%nat -> wbytesb from = true ->
+  call p (S fuel) "unordered_load3" g [VA from] = lift (unordered_load3 p from) (fun r => (g, [Some (VA from)], Some (VN r))).
+Proof. exact w_ul3_src. Qed.
+
+Theorem SRCW_remainder : forall p fuel g bytes, wbytesb bytes = true ->
   call p (S (S (S (S (S fuel))))) "WasmHash::remainder" g [VA bytes]
   = lift (w_remainder p bytes) (fun r => (g, [Some (VA bytes)], Some (VTV [fst r; snd r]))).
 Proof. exact w_remainder_src. Qed.
@@ -105,12 +111,12 @@ Proof.
      | apply wpkt_set_to_ok; exact H | apply wpkt_fill_ok; exact H].
 Qed.
 
-Theorem SRCW_update_remainder : forall p fuel c b, wfp b ->
+Theorem SRCW_update_remainder : forall p fuel c b, wfpb b ->
   call p (S (S (S (S (S (S fuel)))))) "WasmHash::update_remainder" (wgenv_of c b) []
   = lift (w_update_remainder p {| w_core := c; w_buffer := b |}) (fun c' => (wgenv_of c' b, [], None)).
 Proof. exact w_update_remainder_src. Qed.
 
-Theorem SRCW_finalize : forall p fuel c b, wfp b ->
+Theorem SRCW_finalize : forall p fuel c b, wfpb b ->
   ret_of (call p (S (S (S (S (S (S (S fuel))))))) "WasmHash::finalize64" (wgenv_of c b) [])
     = lift_ret (w_finalize64 p {| w_core := c; w_buffer := b |}) VN /\
   ret_of (call p (S (S (S (S (S (S (S fuel))))))) "WasmHash::finalize128" (wgenv_of c b) [])
@@ -136,6 +142,7 @@ Proof. eexists. split; vm_compute; reflexivity. Qed.
 Print Assumptions SRCW_new.
 Print Assumptions SRCW_update.
 Print Assumptions SRCW_wrapper.
+Print Assumptions SRCW_unordered_load3.
 Print Assumptions SRCW_remainder.
 Print Assumptions SRCW_update_remainder.
 Print Assumptions SRCW_finalize.
